@@ -182,4 +182,35 @@ theorem momentWF_append (x y : Moment) (hx : momentWF x = true) (hy : momentWF y
     intro q hq
     exact hd q (by simp [mQubits]; left; exact hq)
 
+theorem withOperations_eq (m m' : Moment) (ops : List Op) (h : withOperations m ops = .ok m') : m' = m ++ ops := by
+  induction ops generalizing m with
+  | nil => simp only [withOperations, Except.ok.injEq] at h; simp [h]
+  | cons o os ih =>
+    simp only [withOperations, bind, Except.bind] at h
+    cases hw : withOperation m o with
+    | error e => rw [hw] at h; cases h
+    | ok m1 =>
+      rw [hw] at h
+      obtain ⟨rfl, _⟩ := withOperation_ok hw
+      rw [ih _ h]; simp
+
+theorem mapM_except_length {α β ε : Type} (f : α → Except ε β) : ∀ (l : List α) (r : List β), l.mapM f = .ok r → r.length = l.length := by
+  intro l
+  induction l with
+  | nil => intro r h; simp only [List.mapM_nil, pure, Except.pure, Except.ok.injEq] at h; subst h; rfl
+  | cons a as ih =>
+    intro r h
+    simp only [List.mapM_cons, bind, Except.bind, pure, Except.pure] at h
+    cases ha : f a with
+    | error e => rw [ha] at h; cases h
+    | ok b =>
+      rw [ha] at h
+      cases hr : as.mapM f with
+      | error e => rw [hr] at h; cases h
+      | ok bs =>
+        rw [hr] at h
+        simp only [Except.ok.injEq] at h
+        subst h
+        simp [ih bs hr]
+
 end CirqVerif.C05
